@@ -244,6 +244,16 @@ def build_harness():
     return out
 
 
+def build_harness_race():
+    """The same harness built with the Go race detector (C16 stress run)."""
+    out = os.path.join(BUILD, "bin", "harness-race")
+    p = subprocess.run(["go", "build", "-race", "-tags", "verif", "-o", out, "./cmd/harness"],
+                       cwd=HARNESS, env=GOENV, capture_output=True, text=True)
+    if p.returncode != 0:
+        raise Inconclusive("race-detector build of the harness failed:\n" + p.stdout + p.stderr)
+    return out
+
+
 def run_harness(args, timeout=1800, stdin=None, env=None):
     exe = os.path.join(BUILD, "bin", "harness")
     e = dict(GOENV)
